@@ -9,8 +9,16 @@
           u = the completion was an untagged NO/BAD (the line had no tag).
    probe: `-` = none; `p<users>` = the LOGIN was answered OK and the harness' identity probe (LIST "" "*" on that session,
           straight after the reply) listed marker mailboxes of these users (9 = the probe itself was refused).
-   `A,<what>` = an ADMIN step of the harness (a user removed / added again): no command, counted as a step only; the
-   accepting users of later LOGINs reflect it.
+   Two more fields may follow the probe: <changed users|-> = users whose observer session (a session of the harness logged
+   in as that user before the first step, outside the trace) read another view - listing and per-mailbox counters - after
+   this step than before it; <leak|-> = `.`-separated <observer><user> pairs: that observer's view held a marker of that
+   other user.
+   `A,<what>[,<user>,<changed>,<leak>,<ms>]` = an ADMIN step of the harness: AdminRemove / AdminRemoveFiles / AdminAdd (a user
+   removed, removed together with its files, loaded again): no command, counted as a step; the accepting users of later LOGINs
+   reflect it; only the administrated user's view may change (AdminRemoveFiles counts as an effect on that user: it comes
+   back with a new database).  AdminRestart (<user> = number of observers that logged in again): every connection was closed,
+   every user removed and loaded again: nobody's view may change; all sessions of the trace start again not authenticated;
+   the observers' accepted LOGINs are attempts of the login counter.
    Last event: E,<users whose before/after views differ|->.   Users are single digits.
 
    What is checked per step, with p = the model's protocol state of that connection:
@@ -42,6 +50,9 @@
    * identity of an accepted LOGIN: the probe must list the mailboxes of exactly the user `chosen` picks among the
      users whose connector accepts the presented pair — whatever was presented or accepted earlier on the server;
      a LOGIN answered OK for a pair nobody's connector accepts is reported with the user whose data the session got.
+   * isolation per step (observers): the users whose view changed in a step are users the acting session is authenticated
+     as before or after the step - a command of one user's session never changes another user's view, and a command of a
+     session that is not authenticated changes nobody's; no observer ever lists a marker of another user.
    * effects (last event): a user's view may differ only if the model ran a handler body for that user
      (`Env.exec` instantiated as "touched"). -/
 import GluonModel.Model.AuthFacts
@@ -62,6 +73,8 @@ structure Ev where
   blocked : Bool
   full : Bool
   who : Option (List Nat)    -- identity probe after an accepted LOGIN
+  chg : List Nat := []       -- users whose observer read another view after this step
+  leak : List (Nat × Nat) := []   -- (observer, user): the observer's view held a marker of that other user
 
 def digitsOf (s : String) : List Nat :=
   if s == "-" then [] else s.toList.map (fun c => c.toNat - 48)
@@ -69,15 +82,27 @@ def digitsOf (s : String) : List Nat :=
 def showDigits (l : List Nat) : String :=
   if l.isEmpty then "-" else String.join (l.map toString)
 
+def pairsOf (s : String) : List (Nat × Nat) :=
+  if s == "-" then [] else
+  (s.splitOn ".").filterMap (fun p =>
+    match p.toList with
+    | [a, b] => some (a.toNat - 48, b.toNat - 48)
+    | _ => none)
+
+def showPairs (l : List (Nat × Nat)) : String :=
+  if l.isEmpty then "-" else ".".intercalate (l.map (fun p => s!"{p.1}{p.2}"))
+
 def parseEv (s : String) : Option Ev :=
-  let mk (c ty acc st seen sent recv fl pr : String) : Ev :=
+  let mk (c ty acc st seen sent recv fl pr chg leak : String) : Ev :=
     { conn := c.toNat?.getD 0, ty := ty, acc := digitsOf acc, status := st, seen := digitsOf seen,
       sent := sent.toNat?.getD 0, recv := recv.toNat?.getD 0,
       blocked := fl.toList.contains 'b', full := fl.toList.contains 'f',
-      who := if pr.startsWith "p" then some ((pr.drop 1).toString.toList.map (fun ch => ch.toNat - 48)) else none }
+      who := if pr.startsWith "p" then some ((pr.drop 1).toString.toList.map (fun ch => ch.toNat - 48)) else none,
+      chg := digitsOf chg, leak := pairsOf leak }
   match s.splitOn "," with
-  | [c, ty, acc, st, seen, sent, recv, fl] => some (mk c ty acc st seen sent recv fl "-")
-  | [c, ty, acc, st, seen, sent, recv, fl, pr] => some (mk c ty acc st seen sent recv fl pr)
+  | [c, ty, acc, st, seen, sent, recv, fl] => some (mk c ty acc st seen sent recv fl "-" "-" "-")
+  | [c, ty, acc, st, seen, sent, recv, fl, pr] => some (mk c ty acc st seen sent recv fl pr "-" "-")
+  | [c, ty, acc, st, seen, sent, recv, fl, pr, chg, leak] => some (mk c ty acc st seen sent recv fl pr chg leak)
   | _ => none
 
 def respName : Resp → String
@@ -174,6 +199,10 @@ def judgeEv (jail : Nat) (st : JSt) (i : Nat) (e : Ev) : Except String JSt :=
     let allowed := p.user.toList ++ p'.user.toList
     if !(e.seen.all allowed.contains) then
       .error s!"property isolation session-of={showDigits allowed} saw-markers-of={showDigits e.seen} {here}"
+    else if !e.leak.isEmpty then
+      .error s!"property isolation observer-lists-marker-of-another-user observer-user-pairs={showPairs e.leak} {here}"
+    else if !(e.chg.all allowed.contains) then
+      .error s!"property isolation command-changed-the-view-of-another-user session-of={showDigits allowed} views-changed-of={showDigits (e.chg.filter (fun u => !allowed.contains u))} {here}"
     else if e.full && r == .ok && e.seen != p'.user.toList then
       .error s!"property identity session-of={showDigits p'.user.toList} full-listing-shows={showDigits e.seen} {here}"
     else if isAttempt && r == .ok && e.who.isSome && e.who != some p'.user.toList then
@@ -191,6 +220,30 @@ def judgeEv (jail : Nat) (st : JSt) (i : Nat) (e : Ev) : Except String JSt :=
           blocked := st.blocked + (if isAttempt && att.blocked then 1 else 0),
           n := st.n + 1 }
 
+/-- an ADMIN step of the harness: `A,<what>` (old form: counted only) or `A,<what>,<user>,<changed>,<leak>,<ms>` -/
+def judgeAdmin (jail : Nat) (st : JSt) (i : Nat) : List String → Except String JSt
+  | [_, what, kS, chgS, leakS, sentS] =>
+    let k := kS.toNat?.getD 0
+    let chg := digitsOf chgS
+    let leak := pairsOf leakS
+    let here := s!"step={i} admin={what} user={kS}"
+    if !leak.isEmpty then
+      .error s!"property isolation observer-lists-marker-of-another-user observer-user-pairs={showPairs leak} {here}"
+    else if what == "AdminRestart" then
+      if !chg.isEmpty then
+        .error s!"property isolation restart-changed-views views-changed-of={showDigits chg} every-user-was-removed-without-its-files-and-loaded-again {here}"
+      else
+        -- every connection was closed; the observers' accepted LOGINs went through getUserID
+        let timing : Timing := { arrive := sentS.toNat?.getD 0, dur := 0, slack := 0 }
+        let login := if k == 0 then st.sys.login else (attempt C18.facts.maxAttempts jail st.sys.login timing true).st
+        .ok { st with sess := [], hist := [], sys := { st.sys with login := login }, n := st.n + 1 }
+    else if !(chg.all (· == k)) then
+      .error s!"property isolation admin-step-changed-the-view-of-another-user views-changed-of={showDigits (chg.filter (· != k))} {here}"
+    else if what == "AdminRemoveFiles" then
+      .ok { st with sys := { st.sys with store := updStore st.sys.store k (fun _ => true) }, n := st.n + 1 }
+    else .ok { st with n := st.n + 1 }
+  | _ => .ok { st with n := st.n + 1 }
+
 def judgeWire (args : List String) : String :=
   match args with
   | [jailS, nuS, trace] =>
@@ -199,7 +252,10 @@ def judgeWire (args : List String) : String :=
     let rec go (st : JSt) (i : Nat) : List String → String
       | [] => "violation unparsable-trace no-end-event"
       | s :: rest =>
-        if s.startsWith "A," then go { st with n := st.n + 1 } (i + 1) rest
+        if s.startsWith "A," then
+          match judgeAdmin jail st i (s.splitOn ",") with
+          | .ok st' => go st' (i + 1) rest
+          | .error why => s!"violation {why}"
         else if s.startsWith "E," then
           let changed := digitsOf (s.drop 2).toString
           let touched := (List.range nu).filter (fun u => st.sys.store u)
